@@ -15,13 +15,15 @@ static void csdo_cb(CO_CSDO *c, uint16_t idx, uint8_t sub, uint32_t code) { (voi
 
 enum { H_TICK, H_HB0, H_HB3, H_HBC_OFF, H_HBC_3, H_HBC_Y, H_SYNC_ON, H_SYNC_OFF, H_CYC2, H_CYC0, H_EMCY_DIS, H_EMCY_EN, H_TP_INV, H_TP_VAL, H_TP_EVT, H_TP_INH,
        H_HBFRAME, H_SEGDL, H_SEGUL, H_BLKDL, H_BLKUL, H_A3, H_SEG, H_CSDO_REQ, H_CSDO_RESP, H_ESET, H_ECLR, H_LSS_STORE, H_LSS_WAIT, H_START, H_STOP, H_PREOP,
-       H_APP_CREATE, H_APP_DELETE, H_RPDO, H_TRIG, H_N };
+       H_APP_CREATE, H_APP_DELETE, H_RPDO, H_TRIG, H_SAVE, H_N };
 static const char *const HN[] = { "tick", "SDO 1017h=0", "SDO 1017h=3", "SDO 1016h:1={9,0}", "SDO 1016h:1={9,3}", "SDO 1016h:1={10,2}", "SDO 1005h=40000080h", "SDO 1005h=80h", "SDO 1006h=2000us", "SDO 1006h=0",
        "SDO 1014h disable", "SDO 1014h enable", "SDO 1800h:1 invalid", "SDO 1800h:1 valid", "SDO 1800h:5=2", "SDO 1800h:3=20", "heartbeat of node 9", "open segmented download", "open segmented upload", "open block download",
        "open block upload", "block upload start", "download segment", "SDO client request", "SDO client response", "COEmcySet(0)", "COEmcyClr(0)", "LSS configure node-id 7 + store", "LSS switch waiting", "NMT start", "NMT stop", "NMT pre-op",
-       "app timer create", "app timer delete", "RPDO frame", "COTPdoTrigPdo(0)" };
+       "app timer create", "app timer delete", "RPDO frame", "COTPdoTrigPdo(0)", "SDO 1010h:1='save'" };
 
-static const char *cfg_name(int c) { return c == 0 ? "reset communication" : c == 1 ? "reset node" : c == 2 ? "reset communication, OPERATIONAL" : "reset node, producer config"; }
+static const char *cfg_name(int c) { return c == 0 ? "reset communication" : c == 1 ? "reset node" : c == 2 ? "reset communication, OPERATIONAL" : c == 3 ? "reset node, producer config" :
+                                            c == 4 ? "reset node, 1017h in a stored communication parameter group" : "reset communication, 1017h in a stored communication parameter group"; }
+static int PARA;
 static int RESET_CS;
 
 static int build(int cfg)
@@ -36,7 +38,10 @@ static int build(int cfg)
     NC.tpdo[1].present = 1; NC.tpdo[1].cobid = 0x40000281u; NC.tpdo[1].type = 1; NC.tpdo[1].nmap = 1; NC.tpdo[1].map[0] = NC_MAP(0x2111, 0, 16);
     NC.csdo = 1;
     NC.operational = (cfg == 2);
-    RESET_CS = (cfg == 1 || cfg == 3) ? 129 : 130;
+    RESET_CS = (cfg == 1 || cfg == 3 || cfg == 4) ? 129 : 130;
+    /* cfg 4, 5: the heartbeat time lives in a parameter group that "save" writes to NVM: RAM and NVM can differ at the reset, and a
+     * fresh start loads the NVM image - so must the reset (both kinds: reset node passes through reset communication) */
+    PARA = NC.para = (cfg >= 4);
     PLEN = mc_opt("plen", 2);
     nc_prepare();
     memset(&M, 0, sizeof M); M.apptmr = -1;
@@ -45,7 +50,7 @@ static int build(int cfg)
     w_save(S_pre);
     nc_start();
     (void)CONodeGetErr(&Node);
-    return H_N;
+    return PARA ? H_N : H_N - 1;
 }
 static const char *ev_name(int e) { return HN[e]; }
 
@@ -93,6 +98,7 @@ static int step(int e)
     case H_APP_DELETE: if (M.apptmr < 0) return MC_SKIP; (void)COTmrDelete(&Node.Tmr, M.apptmr); M.apptmr = -1; break;
     case H_RPDO: d[0] = 0x3C; w_rx(&Node, 0x201, 1, d); break;
     case H_TRIG: COTPdoTrigPdo(Node.TPdo, 0); break;
+    case H_SAVE: if (!sdo_ok) return MC_SKIP; sdo8(0x23, 0x1010, 1, 0x65766173u); break;
     default: break;
     }
     (void)CONodeGetErr(&Node);
@@ -207,5 +213,5 @@ static void probe(void)
     w_restore(S_cur);
 }
 
-static const mc_harness H = { "C20", "c20", 4, cfg_name, build, ev_name, step, 8, 3, probe };
+static const mc_harness H = { "C20", "c20", 6, cfg_name, build, ev_name, step, 8, 3, probe };
 int main(int argc, char **argv) { return mc_main(argc, argv, &H); }
